@@ -649,7 +649,7 @@ pub fn run_episode(ep: &Episode, pristine: &Pristine) -> EpisodeResult {
                         .get(*k)
                         .and_then(|s| s.spec.as_ref())
                         .and_then(|sp| sp.render.as_ref())
-                        .map(|(_, setters)| setters.iter().any(|s| matches!(s, RSetter::Image(ImageSpec::File(_)))))
+                        .map(|(_, setters)| setters.iter().any(|s| matches!(s, RSetter::Image(ImageSpec::File(_)) | RSetter::Image(ImageSpec::RelFile(_)))))
                         .unwrap_or(false)
                 })
                 .collect();
@@ -1229,10 +1229,17 @@ fn exec_op(
                 oracle.lock().unwrap().stats.probe("raster_large_symbol");
             }
             let rk = if *pixmap { "pixmap" } else { "png" };
-            if let Some(ImageSpec::File(logo)) = &m.image {
+            match &m.image {
                 // the file behind the image option holds what the model says, right now
-                prepare_logo(*logo);
-                oracle.lock().unwrap().stats.probe("file_backed_image_render");
+                Some(ImageSpec::File(logo)) => {
+                    prepare_logo(*logo);
+                    oracle.lock().unwrap().stats.probe("file_backed_image_render");
+                }
+                Some(ImageSpec::RelFile(logo)) => {
+                    prepare_rel_logo(*logo);
+                    oracle.lock().unwrap().stats.probe("file_backed_image_render(relative)");
+                }
+                _ => {}
             }
             let key = format!("R|{}|{}|{}", rk, m.key(), v.digest);
             let spec = Some(OneSpec { cfg: v.cfg.clone(), blank: v.blank, tweaks: v.tweaks.to_vec(), render: Some((rk.into(), m.canonical_setters())) });
@@ -1321,8 +1328,10 @@ pub fn evaluate_one(spec: &OneSpec) -> Outcome {
             m.0 ^= *xor;
         }
     }
-    if let Some(ImageSpec::File(logo)) = &RenderModel::from_setters(setters, true).image {
-        prepare_logo(*logo);
+    match &RenderModel::from_setters(setters, true).image {
+        Some(ImageSpec::File(logo)) => prepare_logo(*logo),
+        Some(ImageSpec::RelFile(logo)) => prepare_rel_logo(*logo),
+        _ => {}
     }
     match kind.as_str() {
         "svg" => render_svg_outcome(&svg_builder_from(setters), &qr),
